@@ -14,10 +14,12 @@ from .rl import compute_pure_names
 EMPTY_OK_PRODUCERS = {"find_wrapping", "compute_wrapping"}  # [] is a meaningful answer ("fits without wrapper")
 
 
-def rule_re(prog: Program, report: Report) -> None:
+def rule_re(prog: Program, report: Report, files: tuple[str, ...] | None = None, min_reads: int = 3) -> None:
     report.rules.append("RE")
     n = 0
     for fn in prog.all_funcs():
+        if files is not None and fn.module.rel not in files:
+            continue
         locals_: dict[str, ast.Call] = {}
         for a in walk_own(fn.node):
             tgt = None
@@ -47,7 +49,34 @@ def rule_re(prog: Program, report: Report) -> None:
                 else:
                     report.violate("RE", fn, s, f"`{src(s)}` on a possibly empty wrapping", f"`{nm}` comes from `{src(locals_[nm])[:60]}`, for which [] means 'fits without a wrapper'; `{src(s)}` is not dominated by a non-emptiness test (an `is not None` test does not exclude [])", witness=[f"guards here: {sorted(facts)}"], what="constant index into a wrapping list is guarded by non-emptiness")
     report.count("RE constant-index reads of wrapping results", n)
-    report.expect_at_least("RE", "constant-index reads of wrapping results", n, 3)
+    report.expect_at_least("RE", "constant-index reads of wrapping results", n, min_reads)
+    # RE-truth: [] ("fits without a wrapper") must not be conflated with None ("no wrapping") by a truthiness test
+    from .rt import truth_tests
+
+    nt = 0
+    for fn in prog.all_funcs():
+        if files is not None and fn.module.rel not in files:
+            continue
+        produced: dict[str, ast.Call] = {}
+        for a in walk_own(fn.node):
+            if isinstance(a, ast.Assign) and len(a.targets) == 1 and isinstance(a.targets[0], ast.Name) and isinstance(a.value, ast.Call) and isinstance(a.value.func, ast.Attribute) and a.value.func.attr in EMPTY_OK_PRODUCERS:
+                produced[a.targets[0].id] = a.value
+            if isinstance(a, ast.NamedExpr) and isinstance(a.target, ast.Name) and isinstance(a.value, ast.Call) and isinstance(a.value.func, ast.Attribute) and a.value.func.attr in EMPTY_OK_PRODUCERS:
+                produced[a.target.id] = a.value
+        for atom, site in truth_tests(fn.node):
+            hit = None
+            if isinstance(atom, ast.Name) and atom.id in produced:
+                hit = produced[atom.id]
+            elif isinstance(atom, ast.NamedExpr) and isinstance(atom.target, ast.Name) and atom.target.id in produced:
+                hit = produced[atom.target.id]
+            elif isinstance(atom, ast.Call) and isinstance(atom.func, ast.Attribute) and atom.func.attr in EMPTY_OK_PRODUCERS:
+                hit = atom
+            if hit is None:
+                continue
+            nt += 1
+            report.violate("RE", fn, atom, f"truthiness test of `{src(hit)[:60]}`", "find_wrapping returns [] when the node fits without a wrapper and None when no wrapping exists; a truthiness test treats the two alike (upstream: [] is truthy). In the fitter this rejects the direct fit, and a slice cut from inside an isolating node is then re-opened forever (non-termination)", what="wrapping results are tested with `is None` / `is not None`")
+    report.ob("RE", "package", "no result of find_wrapping / compute_wrapping is tested by truthiness")
+    report.count("RE truthiness tests of wrapping results", nt)
 
 
 def _handler_names(t: ast.Try) -> set[str]:
